@@ -31,7 +31,7 @@ MANIFEST = dict(
     technique="Lean 4 proofs (fold decomposition by name, mutual structural induction over the tree, decision logic for validation) + "
               "differential correspondence check with exhaustive small scopes",
 )
-PROP_FILES = ["HtmlVerif/Props/C10.lean"]
+PROP_FILES = ["HtmlVerif/Props/C10.lean", "HtmlVerif/Props/SrcC10.lean"]
 
 NAMES = ["a", "b"]
 VERSIONS = ["1.9", "1.10", "1.10.0", "2"]
@@ -392,6 +392,8 @@ def run(tier: str) -> int:
 
     for _ in range(ck.budget(2500, 40000)):
         names = rng.choice([["a"], ["a", "b"], ["a", "b", "c", "dd"], ["x", "X", "x ", ""]])
+        if gen.EXTRA and rng.random() < 0.4:      # literals the source has gained (§14.4) as dependency names
+            names = names + [rng.choice(gen.EXTRA)]
         versions = rng.sample(WIDE_VERSIONS, rng.choice([1, 2, 3, 5, 8]))
         f = rand_forest(rng.randint(1, 5), names, versions)
         add_tree_cases(f, ops=rng.choice([("lt", "tf"), ("tt", "lf"), ("lt", "tt")]), group=False,
@@ -490,6 +492,7 @@ def run(tier: str) -> int:
     ck.extra_cov["placement_groups"] = len(groups)
     phase["python_oracles"] = round(time.time() - t1, 1)
     t1 = time.time()
+    ck.add_src(['resolve_dependencies', 'Tag_get_dependencies', 'TagList_get_dependencies'])
     ck.correspond(holds=True)
     phase["model_and_statement"] = round(time.time() - t1, 1)
     ck.extra_cov["phase_s"] = phase
